@@ -22,7 +22,7 @@ func init() {
 		Run: runC13,
 		Controls: []Mutant{
 			{Name: "name-unescaped", File: "guidedremediation/internal/manifest/npm/packagejson.go", Old: "			key := gjson.Escape(name)", New: "			key := name", Rule: "D1-escaped-path", Site: "Write"},
-			{Name: "matched-flag-not-reset", File: "guidedremediation/internal/manifest/npm/packagejson.go", Old: "			alreadyMatched := false\n", New: "", Rule: "D3-applied-or-error", Site: "Write"},
+			{Name: "matched-flag-not-reset", File: "guidedremediation/internal/manifest/npm/packagejson.go", Old: "\t\t\talreadyMatched := false\n", New: "", Old2: "\t\tfor _, req := range patch.PackageUpdates {\n", New2: "\t\talreadyMatched := false\n\t\tfor _, req := range patch.PackageUpdates {\n", Rule: "D3-applied-or-error", Site: "Write"},
 			{Name: "silent-no-op", File: "guidedremediation/internal/manifest/npm/packagejson.go", Old: "			if !alreadyMatched {\n				return fmt.Errorf(\"dependency to patch not found in %s: %s\", original.FilePath(), req.Name)\n			}\n", New: "", Rule: "D3-applied-or-error", Site: "Write"},
 			{Name: "property-patch-unchecked", File: "guidedremediation/internal/manifest/maven/pomxml.go", Old: "	if start < 0 || !strings.HasPrefix(s2, s1[:start]) {", New: "	if !strings.HasPrefix(s2, s1[:max(start, 0)]) {", Rule: "D2-bounds", Site: "generatePropertyPatchesAux"},
 			{Name: "origin-joined-without-separator", File: "guidedremediation/internal/manifest/maven/pomxml.go", Old: "	return tokens[1], strings.Join(tokens[2:], \"@\")", New: "	return tokens[1], strings.Join(tokens[2:], \"\")", Rule: "D5-origin-separator", Site: "parentPathFromOrigin"},
